@@ -144,9 +144,17 @@ def renderOp (j : Json) : Except String Res := do
     -- a number of several digits may be cut by a hard break: `shownNumbers` reads it across the break
     w < 1 || (let runs := shownNumbers (Safe.strip o)
       (List.range implLinks.length).all fun i => runs.contains (i + 1))
+  -- the text at a width is what a never-rendered markup gives at that width (no history)
+  let fresh : Option (List Str) := match j.getObjVal? "fresh" with
+    | .ok (Json.arr a) => some (a.toList.map fun v => match v with | Json.str s => s.toList | _ => [])
+    | _ => none
+  let freshOk := match fresh with
+    | some f => f == implOuts
+    | none => true
   let preds := if isStrOut then
       [("safe_output", safeOk), ("neutral_at_line_ends", neutralOk), ("lines_within_width", widthOk),
-       ("same_width_same_text", sameOk), ("label_opens_own_target", labelOk), ("numbers_1_to_N_shown", numbersOk)]
+       ("same_width_same_text", sameOk), ("label_opens_own_target", labelOk), ("numbers_1_to_N_shown", numbersOk),
+       ("render_is_history_free", freshOk)]
     else []
   pure { model := Json.mkObj [("links", jsl links), ("out", jsl outs)], preds := preds,
          nontrivial := !links.isEmpty || widths.length ≥ 2 }
